@@ -4,6 +4,7 @@ import (
 	"fmt"
 	"go/token"
 	"go/types"
+	"math/big"
 	"sort"
 	"strings"
 
@@ -366,7 +367,24 @@ func (o *Origins) compute(v ssa.Value) *Ex {
 	case *ssa.Call:
 		return o.callEx(x, -1)
 	case *ssa.BinOp:
-		return mk("bin", x.Op.String(), o.Of(x.X), o.Of(x.Y))
+		a, b := o.Of(x.X), o.Of(x.Y)
+		// (X + c1) - c2 and (X + c1) + c2 read as X + c: `x + divisor - 1` with a named constant is `x + 999`
+		if x.Op == token.SUB && b.K == "const" && a.K == "bin" && a.S == "+" && len(a.Args) == 2 && a.Args[1].K == "const" {
+			c1, ok1 := new(big.Int).SetString(a.Args[1].S, 10)
+			c2, ok2 := new(big.Int).SetString(b.S, 10)
+			if ok1 && ok2 {
+				r := new(big.Int)
+				if x.Op == token.SUB {
+					r.Sub(c1, c2)
+				} else {
+					r.Add(c1, c2)
+				}
+				if r.Sign() > 0 && r.BitLen() < 31 {
+					return mk("bin", "+", a.Args[0], mk("const", r.String()))
+				}
+			}
+		}
+		return mk("bin", x.Op.String(), a, b)
 	case *ssa.ChangeType:
 		return o.Of(x.X)
 	case *ssa.ChangeInterface:
